@@ -89,6 +89,11 @@ func runC20(c *engine.Ctx) {
 			}
 		}
 	})
+	if c.Mine() {
+		for _, b := range c20ForeignAKA() {
+			c20Decode(c, c20Case{K: "decode", Name: "foreign-aka-attributes"}, b)
+		}
+	}
 	// encode / protect / unprotect side over the universe
 	univ.Messages(depthFor(c), func(name string, m ref.Msg) {
 		if !c.Mine() {
@@ -151,6 +156,28 @@ func c20Decode(c *engine.Ctx, cs c20Case, in []byte) {
 		}
 		if d1 := dumpMsg(m); d1 != d0 {
 			c.Violate("decoded-message-changes-with-input-buffer", fmt.Sprintf("%s: overwriting the receive buffer changes the decoded message", cs.Name), cs)
+			return
+		}
+	}
+	// a decoded message re-encodes to the same bytes whatever the map iteration order (decoded EAP-AKA' packets
+	// can hold attribute types that no setter accepts)
+	if engine.InstrumentedBuild() && decodedHasAKA(m) {
+		var first []byte
+		bad := false
+		execs, _ := engine.ForAllMapOrders(5000, func([]int) {
+			bx, ex := m.Encode()
+			if ex != nil {
+				return
+			}
+			if first == nil {
+				first = bx
+			} else if !bytes.Equal(first, bx) {
+				bad = true
+			}
+		})
+		c.Count("map_order_executions", execs)
+		if bad {
+			c.Violate("encode-depends-on-map-order/decoded-message", fmt.Sprintf("%s: the decoded message encodes differently under different map iteration orders", cs.Name), cs)
 			return
 		}
 	}
@@ -320,6 +347,7 @@ func c20Protect(c *engine.Ctx, cs c20Case) {
 	if err != nil || err2 != nil {
 		return
 	}
+	held := lm.Payloads // the caller's own view of the list (same backing array), e.g. the variable it built the message from
 	orig := append(message.IKEPayloadContainer(nil), lm.Payloads...)
 	before := make([]string, len(orig))
 	for i, p := range orig {
@@ -347,6 +375,12 @@ func c20Protect(c *engine.Ctx, cs c20Case) {
 		}
 		if r, ok := engine.Overlaps(engine.Regions(p), b); ok {
 			c.Violate("protect-returns-referenced-buffer", r.Path, cs)
+			return
+		}
+	}
+	for i := range orig {
+		if i < len(held) && held[i] != orig[i] {
+			c.Violate("protect-overwrites-callers-payload-list", fmt.Sprintf("%s: after EncodeEncrypt the caller's own slice of the payload list holds a different payload at index %d (the list was replaced in place instead of being replaced)", cs.Name, i), cs)
 			return
 		}
 	}
@@ -415,4 +449,30 @@ func hasAKA(m ref.Msg) bool {
 		}
 	}
 	return false
+}
+
+func decodedHasAKA(m *message.IKEMessage) bool {
+	for _, p := range m.Payloads {
+		if e, ok := p.(*message.PayloadEap); ok && e.EAP != nil && e.EAP.EapTypeData != nil && uint8(e.EAP.EapTypeData.Type()) == 50 {
+			return true
+		}
+	}
+	return false
+}
+
+// c20ForeignAKA: datagrams whose EAP-AKA' payload carries several attribute types without a setter.
+func c20ForeignAKA() [][]byte {
+	var out [][]byte
+	sets := [][]ref.AKAAttr{
+		{{T: 129, V: append([]byte{0, 0}, univ.Pat(16, 1)...)}, {T: 135, V: []byte{0, 0}}, {T: 136, V: []byte{0x80, 0}}},
+		{{T: ref.AtRAND, V: univ.Pat(16, 2)}, {T: 12, V: []byte{0x40, 0}}, {T: 19, V: []byte{0, 3}}, {T: 130, V: append([]byte{0, 0}, univ.Pat(12, 3)...)}, {T: 135, V: []byte{0, 0}}},
+		{{T: 4, V: univ.Pat(14, 4)}, {T: 22, V: []byte{0, 1}}},
+	}
+	for _, at := range sets {
+		m := ref.Msg{H: univ.BaseHdr, P: []ref.Payload{{T: ref.PEAP, EAP: &ref.EAP{Code: 1, ID: 3, Method: 50, Sub: 1, AKA: at}}}}
+		if b, err := ref.Encode(m, ref.Lib{}); err == nil {
+			out = append(out, b)
+		}
+	}
+	return out
 }
